@@ -202,8 +202,48 @@ fn c19_text_case(bytes: &[u8], stats: &mut Stats) -> Verdict {
 }
 
 /// preconditions of the listed `Schema::new` panics, recognised in raw schema text
+/// the document without block strings, strings and comments (a `schema {` inside a description is not a schema block)
+fn strip_strings_and_comments(text: &str) -> String {
+    let cs: Vec<char> = text.chars().collect();
+    let mut out = String::with_capacity(text.len());
+    let mut i = 0;
+    while i < cs.len() {
+        if cs[i] == '"' && i + 2 < cs.len() && cs[i + 1] == '"' && cs[i + 2] == '"' {
+            i += 3;
+            while i < cs.len() && !(cs[i] == '"' && i + 2 < cs.len() && cs[i + 1] == '"' && cs[i + 2] == '"') {
+                if cs[i] == '\\' {
+                    i += 1;
+                }
+                i += 1;
+            }
+            i += 3;
+            out.push(' ');
+        } else if cs[i] == '"' {
+            i += 1;
+            while i < cs.len() && cs[i] != '"' && cs[i] != '\n' {
+                if cs[i] == '\\' {
+                    i += 1;
+                }
+                i += 1;
+            }
+            i += 1;
+            out.push(' ');
+        } else if cs[i] == '#' {
+            while i < cs.len() && cs[i] != '\n' {
+                i += 1;
+            }
+        } else {
+            out.push(cs[i]);
+            i += 1;
+        }
+    }
+    out
+}
+
 pub fn derive_schema_labels(text: &str) -> Vec<&'static str> {
     use regex::Regex;
+    let stripped = strip_strings_and_comments(text);
+    let text = stripped.as_str();
     thread_local! {
         static RX: (Regex, Regex, Regex, Regex) = (
             Regex::new(r"(?:^|[\s}])schema\s*(?:@\w+(?:\([^)]*\))?\s*)*\{").unwrap(),
